@@ -16,6 +16,7 @@ package plan
 
 import (
 	"fmt"
+	"strconv"
 	"strings"
 
 	"github.com/XiaoMi/Gaea/mysql"
@@ -1146,6 +1147,14 @@ func getShardingCompareValue(rule router.Rule, x *driver.ValueExpr) (v interface
 	v, err = util.GetValueExprResult(x)
 	if err != nil {
 		return nil, false, err
+	}
+	if s, ok := v.(string); ok && rule.GetType() == router.HashRuleType {
+		// the hash rule places a string of digits where it places the number and every other
+		// string by its checksum. MySQL reads ' 7', '+7', '7.0' and '7e0' as the number 7 as
+		// well: the rows they match are in the table of 7, not in the table of their text
+		if _, err := strconv.ParseUint(s, 10, 64); err != nil && looksLikeNumber(s) {
+			return nil, false, nil
+		}
 	}
 	return v, true, nil
 }
